@@ -1,7 +1,7 @@
 (* [sane] (no present-but-empty scheme or IPvFuture text) is kept by uriMakeOwnerMm and uriNormalizeSyntaxExMm,
    whatever they return, so that the ledger theorems chain over arbitrary histories. *)
 From Coq Require Import List NArith Bool Arith Lia.
-From UP Require Import Base.Chars Model.Uri Model.Common Model.Normalize Model.Mem Model.ParseM Model.OpsM
+From UP Require Import Base.Chars Model.Uri Model.Common Model.Compare Model.Resolve Model.Shorten Model.Normalize Model.Mem Model.ParseM Model.OpsM
   Proofs.LedgerProofs Proofs.LedgerOps Proofs.LedgerNormalize Proofs.LedgerTheorems Proofs.LedgerTransparent.
 Import ListNotations.
 
@@ -215,3 +215,192 @@ Theorem make_owner_m_sane m s : sane m -> sane (snd (fst (make_owner_m csize m s
 Proof. apply keeps_sane. apply make_owner_m_keeps. Qed.
 
 End WithCsize.
+
+(* ---------------------------------------------------------------- destinations of uriAddBaseUri / uriRemoveBaseUri *)
+(* scheme and IPvFuture text of the destination are absent or borrowed from one of the two arguments *)
+Definition okv (a b v : option text) : Prop := v = None \/ v = a \/ v = b.
+Definition from2 (x y d : muri) : Prop :=
+  okv (t_val (m_scheme x)) (t_val (m_scheme y)) (t_val (m_scheme d))
+  /\ okv (t_val (m_ipFuture x)) (t_val (m_ipFuture y)) (t_val (m_ipFuture d)).
+
+Lemma from2_sane x y d : sane x -> sane y -> from2 x y d -> sane d.
+Proof.
+  unfold sane, from2, okv. intros [a b] [c e] [[H|[H|H]] [G|[G|G]]]; rewrite H, G; split; auto; discriminate.
+Qed.
+Lemma from2_same x y d d' : m_scheme d' = m_scheme d -> m_ipFuture d' = m_ipFuture d -> from2 x y d -> from2 x y d'.
+Proof. unfold from2. intros -> ->. auto. Qed.
+Lemma from2_empty x y : from2 x y muri_empty.
+Proof. split; left; reflexivity. Qed.
+
+Lemma copy_path_m_sf d src s : let d' := snd (fst (copy_path_m d src s)) in m_scheme d' = m_scheme d /\ m_ipFuture d' = m_ipFuture d.
+Proof. cbv zeta. unfold copy_path_m. destruct (copy_segs [] (m_segs src) s) as [[[|] segs] s1]; cbn [fst snd]; auto. Qed.
+Lemma fix_ambiguity_m_sf d s : let d' := snd (fst (fix_ambiguity_m d s)) in m_scheme d' = m_scheme d /\ m_ipFuture d' = m_ipFuture d.
+Proof.
+  cbv zeta. unfold fix_ambiguity_m. destruct (match m_abs d with true => _ | false => _ end); [|auto].
+  destruct (alloc false SEG_SIZE s) as [[id|] s1]; cbn [fst snd]; auto.
+Qed.
+Lemma merge_path_m_sf d rel s : let d' := snd (fst (merge_path_m d rel s)) in m_scheme d' = m_scheme d /\ m_ipFuture d' = m_ipFuture d.
+Proof.
+  cbv zeta. unfold merge_path_m. destruct (m_segs rel); [auto|]. destruct (m_segs d).
+  - destruct (alloc false SEG_SIZE s) as [[id|] s1]; [|auto]. destruct (copy_segs [] _ s1) as [[ok more] s2]. auto.
+  - destruct (copy_segs [] _ s) as [[ok more] s2]. auto.
+Qed.
+Lemma resolve_abs_flag_m_sf d s : match fst (resolve_abs_flag_m d s) with
+  | Some d' => m_scheme d' = m_scheme d /\ m_ipFuture d' = m_ipFuture d | None => True end.
+Proof.
+  unfold resolve_abs_flag_m. destruct (m_host_set d && m_abs d); [|cbn; auto]. destruct (m_segs d); [|cbn; auto].
+  destruct (alloc false SEG_SIZE s) as [[id|] s1]; cbn; auto.
+Qed.
+Lemma copy_authority_m_from d src s : let d' := snd (fst (copy_authority_m d src s)) in
+  m_scheme d' = m_scheme d
+  /\ (t_val (m_ipFuture d') = None \/ t_val (m_ipFuture d') = t_val (m_ipFuture src) \/ m_ipFuture d' = m_ipFuture d).
+Proof.
+  cbv zeta. unfold copy_authority_m. destruct (m_ip4 src) as [[v b]|].
+  - destruct (alloc false IP4_SIZE s) as [[id|] s1]; cbn [fst snd]; msimpl; auto.
+  - destruct (m_ip6 src) as [[v b]|].
+    + destruct (alloc false IP6_SIZE s) as [[id|] s1]; cbn [fst snd]; msimpl; auto.
+    + cbn [fst snd]. msimpl. auto.
+Qed.
+
+Lemma from2_copy_authority x y d src s : (src = x \/ src = y) -> from2 x y d -> from2 x y (snd (fst (copy_authority_m d src s))).
+Proof.
+  intros Hs [a b]. pose proof (copy_authority_m_from d src s) as [e f]. cbv zeta in *. split; [rewrite e; exact a|].
+  destruct f as [f|[f|f]]; [left; exact f| |rewrite f; exact b].
+  rewrite f. destruct Hs as [->| ->]; [right; left|right; right]; reflexivity.
+Qed.
+
+Lemma ab_finish_from x y rel d s : from2 x y d -> from2 x y (snd (fst (ab_finish rel d s))).
+Proof.
+  intros F. unfold ab_finish. pose proof (fet_vals d s) as V. cbv zeta in V. destruct (fix_empty_trail_m d s) as [d1 s1].
+  cbn [fst snd] in *. destruct V as [a b]. apply (from2_same x y d); msimpl; auto.
+Qed.
+
+Lemma from2_scheme x y d t : (t = m_scheme x \/ t = m_scheme y) -> from2 x y d -> from2 x y (set_m_scheme (borrow t) d).
+Proof. intros H [a b]. split; msimpl; [|exact b]. cbn [borrow t_val]. destruct H as [->| ->]; [right; left|right; right]; reflexivity. Qed.
+Lemma from2_query x y d t : from2 x y d -> from2 x y (set_m_query t d).
+Proof. intros [a b]. split; msimpl; assumption. Qed.
+
+Lemma ab_tail_from rel base d s : from2 rel base d -> from2 rel base (snd (fst (ab_tail rel base d s))).
+Proof.
+  intros F. unfold ab_tail. pose proof (rds_vals false (m_owner d) d s) as V3. cbv zeta in V3.
+  destruct (remove_dot_segments_m false (m_owner d) d s) as [[[|] d3] s3]; cbn [negb fst snd] in *; cbv beta iota;
+    [|apply (from2_same _ _ d); tauto].
+  pose proof (fix_ambiguity_m_sf d3 s3) as V4. cbv zeta in V4.
+  destruct (fix_ambiguity_m d3 s3) as [[[|] d4] s4]; cbn [negb fst snd] in *; cbv beta iota.
+  - apply ab_finish_from. apply from2_scheme; [auto|]. apply from2_query. apply (from2_same _ _ d); [| |exact F]; destruct V3, V4; congruence.
+  - apply (from2_same _ _ d); [| |exact F]; destruct V3, V4; congruence.
+Qed.
+Lemma ab_abs_from rel base d s : from2 rel base d -> from2 rel base (snd (fst (ab_abs rel base d s))).
+Proof.
+  intros F. unfold ab_abs. pose proof (copy_path_m_sf d rel s) as V2. cbv zeta in V2.
+  destruct (copy_path_m d rel s) as [[[|] d2] s2]; cbn [negb fst snd] in *; cbv beta iota; [|apply (from2_same _ _ d); tauto].
+  pose proof (resolve_abs_flag_m_sf d2 s2) as V2b. destruct (resolve_abs_flag_m d2 s2) as [[d2b|] s2b]; cbn [fst snd] in *.
+  - apply ab_tail_from. apply (from2_same _ _ d); [| |exact F]; destruct V2, V2b; congruence.
+  - apply (from2_same _ _ d); tauto.
+Qed.
+Lemma ab_merge_from rel base d s : from2 rel base d -> from2 rel base (snd (fst (ab_merge rel base d s))).
+Proof.
+  intros F. unfold ab_merge. pose proof (copy_path_m_sf d base s) as V2. cbv zeta in V2.
+  destruct (copy_path_m d base s) as [[[|] d2] s2]; cbn [negb fst snd] in *; cbv beta iota; [|apply (from2_same _ _ d); tauto].
+  pose proof (merge_path_m_sf d2 rel s2) as V2b. cbv zeta in V2b.
+  destruct (merge_path_m d2 rel s2) as [[[|] d2b] s2b]; cbn [negb fst snd] in *; cbv beta iota.
+  - apply ab_tail_from. apply (from2_same _ _ d); [| |exact F]; destruct V2, V2b; congruence.
+  - apply (from2_same _ _ d); [| |exact F]; destruct V2, V2b; congruence.
+Qed.
+Lemma ab_take_from rel base src d s : (src = rel \/ src = base) -> from2 rel base d -> from2 rel base (snd (fst (ab_take rel src d s))).
+Proof.
+  intros Hs F. unfold ab_take. pose proof (from2_copy_authority rel base d src s Hs F) as F1.
+  destruct (copy_authority_m d src s) as [[[|] d1] s1]; cbn [negb fst snd] in *; cbv beta iota; [|exact F1].
+  pose proof (copy_path_m_sf d1 src s1) as V2. cbv zeta in V2.
+  destruct (copy_path_m d1 src s1) as [[[|] d2] s2]; cbn [negb fst snd] in *; cbv beta iota; [|apply (from2_same _ _ d1); tauto].
+  pose proof (rds_vals false (m_owner d2) d2 s2) as V3. cbv zeta in V3.
+  destruct (remove_dot_segments_m false (m_owner d2) d2 s2) as [[[|] d3] s3]; cbn [negb fst snd] in *; cbv beta iota;
+    [|apply (from2_same _ _ d1); [| |exact F1]; destruct V2, V3; congruence].
+  pose proof (fix_ambiguity_m_sf d3 s3) as V4. cbv zeta in V4.
+  destruct (fix_ambiguity_m d3 s3) as [[[|] d4] s4]; cbn [negb fst snd] in *; cbv beta iota.
+  - apply ab_finish_from. apply from2_query. apply (from2_same _ _ d1); [| |exact F1]; destruct V2, V3, V4; congruence.
+  - apply (from2_same _ _ d1); [| |exact F1]; destruct V2, V3, V4; congruence.
+Qed.
+
+Lemma add_base_impl_m_from compat rel base s : from2 rel base (snd (fst (add_base_impl_m compat rel base s))).
+Proof.
+  rewrite add_base_impl_m_eq. destruct (t_val (m_scheme base)) as [tb|]; [|apply from2_empty].
+  destruct (is_some (t_val (m_scheme rel)) && negb (compat && range_eqb (Some tb) (t_val (m_scheme rel)))).
+  - match goal with |- context [ab_take rel rel ?d s] => pose proof (ab_take_from rel base rel d s (or_introl eq_refl)) as K;
+      destruct (ab_take rel rel d s) as [[? ?] ?] end. cbn [fst snd] in *. apply K. apply from2_scheme; [auto|apply from2_empty].
+  - destruct (m_host_set rel).
+    + pose proof (from2_copy_authority rel base muri_empty rel s (or_introl eq_refl) (from2_empty _ _)) as F1.
+      destruct (copy_authority_m muri_empty rel s) as [[[|] d1] s1]; cbn [negb fst snd] in *; cbv beta iota; [|exact F1].
+      pose proof (copy_path_m_sf d1 rel s1) as V2. cbv zeta in V2.
+      destruct (copy_path_m d1 rel s1) as [[[|] d2] s2]; cbn [negb fst snd] in *; cbv beta iota; [|apply (from2_same _ _ d1); tauto].
+      pose proof (rds_vals false (m_owner d2) d2 s2) as V3. cbv zeta in V3.
+      destruct (remove_dot_segments_m false (m_owner d2) d2 s2) as [[[|] d3] s3]; cbn [negb fst snd] in *; cbv beta iota;
+        [|apply (from2_same _ _ d1); [| |exact F1]; destruct V2, V3; congruence].
+      apply ab_finish_from. apply from2_scheme; [auto|]. apply from2_query.
+      apply (from2_same _ _ d1); [| |exact F1]; destruct V2, V3; congruence.
+    + pose proof (from2_copy_authority rel base muri_empty base s (or_intror eq_refl) (from2_empty _ _)) as F1.
+      destruct (copy_authority_m muri_empty base s) as [[[|] d1] s1]; cbn [negb fst snd] in *; cbv beta iota; [|exact F1].
+      destruct (m_segs rel) as [|r1 rr]; destruct (m_abs rel).
+      * apply ab_abs_from; exact F1.
+      * pose proof (copy_path_m_sf d1 base s1) as V2. cbv zeta in V2.
+        destruct (copy_path_m d1 base s1) as [[[|] d2] s2]; cbn [negb fst snd] in *; cbv beta iota; [|apply (from2_same _ _ d1); tauto].
+        apply ab_finish_from. apply from2_scheme; [auto|]. apply from2_query. apply (from2_same _ _ d1); tauto.
+      * apply ab_abs_from; exact F1.
+      * apply ab_merge_from; exact F1.
+Qed.
+
+Lemma free_members_from x y d s : from2 x y d -> from2 x y (fst (free_members d s)).
+Proof.
+  intros [a b]. unfold free_members. cbn [fst]. destruct (m_owner d); split; msimpl; try (left; reflexivity); assumption.
+Qed.
+
+Theorem add_base_m_sane compat rel base s : sane rel -> sane base -> sane (snd (fst (add_base_m compat rel base s))).
+Proof.
+  intros Sr Sb. apply (from2_sane rel base); auto. unfold add_base_m.
+  pose proof (add_base_impl_m_from compat rel base s) as F. destruct (add_base_impl_m compat rel base s) as [[rc d] s1].
+  cbn [fst snd] in F. destruct (rc =? 0)%N; [exact F|].
+  pose proof (free_members_from rel base d s1 F) as F2. destruct (free_members d s1) as [d' s2]. exact F2.
+Qed.
+
+Lemma remove_base_impl_m_from dr src base s : from2 src base (snd (fst (remove_base_impl_m dr src base s))).
+Proof.
+  unfold remove_base_impl_m. cbv zeta.
+  destruct (t_val (m_scheme base)) as [tb|]; [|apply from2_empty].
+  destruct (t_val (m_scheme src)) as [ts|]; [|apply from2_empty].
+  assert (Copy : forall d, from2 src base d -> from2 src base (snd (fst (
+           let '(ok, d, s) := copy_authority_m d src s in
+           if negb ok then (URI_ERROR_MALLOC, d, s) else
+           let '(ok, d, s) := copy_path_m d src s in
+           if negb ok then (URI_ERROR_MALLOC, d, s)
+           else (URI_SUCCESS, set_m_fragment (borrow (m_fragment src)) (set_m_query (borrow (m_query src)) d), s))))).
+  { intros d F. pose proof (from2_copy_authority src base d src s (or_introl eq_refl) F) as F1.
+    destruct (copy_authority_m d src s) as [[[|] d1] s1]; cbn [negb fst snd] in *; cbv beta iota; [|exact F1].
+    pose proof (copy_path_m_sf d1 src s1) as V2. cbv zeta in V2.
+    destruct (copy_path_m d1 src s1) as [[[|] d2] s2]; cbn [negb fst snd] in *; cbv beta iota; apply (from2_same _ _ d1); msimpl; tauto. }
+  destruct (negb (range_eqb (scheme (erase src)) (scheme (erase base)))).
+  { apply Copy. apply from2_scheme; [auto|apply from2_empty]. }
+  destruct (negb (equals_authority (erase src) (erase base))).
+  { destruct (negb (is_host_set (erase src)) && is_host_set (erase base)); apply Copy; [apply from2_scheme; [auto|]|]; apply from2_empty. }
+  destruct dr.
+  - pose proof (copy_path_m_sf muri_empty src s) as V2. cbv zeta in V2.
+    destruct (copy_path_m muri_empty src s) as [[[|] d2] s2]; cbn [negb fst snd] in *; cbv beta iota;
+      [|apply (from2_same _ _ muri_empty); [tauto|tauto|apply from2_empty]].
+    pose proof (fix_ambiguity_m_sf (set_m_abs true d2) s2) as V4. cbv zeta in V4.
+    destruct (fix_ambiguity_m (set_m_abs true d2) s2) as [[[|] d4] s4]; cbn [negb fst snd] in *; cbv beta iota;
+      apply (from2_same _ _ muri_empty); msimpl; try apply from2_empty; destruct V2, V4; msimpl; congruence.
+  - destruct (skip_common (pathSegs (erase src)) (pathSegs (erase base))) as [s' b'].
+    destruct (append_segs [] _ s) as [[[|] segs] s1]; cbn [fst snd]; apply (from2_same _ _ muri_empty); msimpl; try reflexivity; apply from2_empty.
+Qed.
+
+Theorem remove_base_m_sane dr src base s : sane src -> sane base -> sane (snd (fst (remove_base_m dr src base s))).
+Proof.
+  intros Sr Sb. apply (from2_sane src base); auto. unfold remove_base_m.
+  pose proof (remove_base_impl_m_from dr src base s) as F. destruct (remove_base_impl_m dr src base s) as [[rc d] s1].
+  cbn [fst snd] in F. destruct (rc =? 0)%N; [exact F|].
+  pose proof (free_members_from src base d s1 F) as F2. destruct (free_members d s1) as [d' s2]. exact F2.
+Qed.
+
+Theorem free_members_sane m s : sane m -> sane (fst (free_members m s)).
+Proof.
+  intros [a b]. unfold free_members. cbn [fst]. destruct (m_owner m); split; msimpl; try discriminate; assumption.
+Qed.
